@@ -273,7 +273,7 @@ class C10:
                     rec.violation("IMAGE/variable-deleted-after-a-scoped-override-is-still-exported", dict(case, steps=trace), {"key": k, "got": have, "last_ops": trace[-4:]})
                     return False
                 muts = [t for t in trace if t[0] in ("set", "del", "append-fresh-read", "append-held-reference") and t[1] == k]
-                if kind == "stale-value" and muts and muts[-1][0] == "append-held-reference" and how == "prep_env_subproc":
+                if kind == "stale-value" and muts and muts[-1][0] == "append-held-reference" and how in ("prep_env_subproc", "detype()"):
                     # the last edit of this variable went through a reference obtained earlier; nothing read the variable since
                     rec.violation("IMAGE/in-place-edit-through-a-held-reference-not-seen-by-the-cached-mapping", dict(case, steps=trace), {"key": k, "expected": want, "got": have, "last_ops": trace[-4:]})
                     return False
@@ -352,8 +352,12 @@ class C10:
                     rec.count("held_reference_mutations")
                     trace.append(["append-held-reference", k, x])
             elif r < 0.66:
-                env.detype()
+                got = dict(env.detype())
                 trace.append(["detype-read"])
+                # the mapping a child launched right now would be handed (prep_env_subproc = swap + detype)
+                rec.count("direct_detype_reads_checked")
+                if not self.image_check(rec, case, list(trace), got, model, "detype()"):
+                    return
             elif r < 0.70:
                 k = rng.choice(["ln", "di", "or", "ex"])
                 v = rng.choice(["target", ("RESET",), ("RESET",), ("BOLD_BLUE",), ("RED",)])
